@@ -1138,7 +1138,7 @@ theorem stepOK_tm (env : Env) (cfg : W.Cfg) (rcs sv : List W.RowsChange) (st : P
     cases hf : findTable st.tables c.table.id with
     | none =>
       have hcl := cl_tm_new env st cfg hI.fmt off c.ts c.table hrows.table c.tmOptional hrows.ts hb hf (hm c hc)
-      simp only [stepEvent, hcl, stepD, Bool.false_eq_true, if_false, Step.cont.injEq] at hs
+      simp only [stepEvent, hcl, stepD, hf, Option.isSome_none, Bool.false_eq_true, if_false, Step.cont.injEq] at hs
       subst hs
       refine ⟨hI.fmt, ?_⟩
       intro id tc hid
@@ -1149,9 +1149,10 @@ theorem stepOK_tm (env : Env) (cfg : W.Cfg) (rcs sv : List W.RowsChange) (st : P
       · rw [GV.C15.findTable_append_other st.tables _ _ id hj] at hid
         exact hI.cache id tc hid
     | some old =>
-      have hcl := cl_tm_known env st cfg hI.fmt off c.ts c.table hrows.table c.tmOptional hrows.ts hb old hf
       obtain ⟨c0, hc0, hid0, rfl⟩ := hI.cache _ _ hf
       have ht0 : c0.table = c.table := htb c0 hc0 c hc hid0
+      have hcl := cl_tm_known env st cfg hI.fmt off c.ts c.table hrows.table c.tmOptional hrows.ts hb _ hf
+        (by rw [ht0]; exact ⟨rfl, rfl⟩)
       simp only [stepEvent, hcl, stepD, if_true, Step.cont.injEq] at hs
       subst hs
       refine ⟨hI.fmt, ?_⟩
@@ -1167,9 +1168,12 @@ theorem stepOK_tm (env : Env) (cfg : W.Cfg) (rcs sv : List W.RowsChange) (st : P
     cases hf : findTable st.tables c.table.id with
     | none =>
       have hcl := cl_tm_new env st cfg hI.fmt off c.ts c.table hrows.table c.tmOptional hrows.ts hb hf (hm c hc)
-      simp [stepEvent, hcl, stepD] at hs
+      simp [stepEvent, hcl, stepD, hf] at hs
     | some old =>
-      have hcl := cl_tm_known env st cfg hI.fmt off c.ts c.table hrows.table c.tmOptional hrows.ts hb old hf
+      obtain ⟨c0, hc0, hid0, rfl⟩ := hI.cache _ _ hf
+      have ht0 : c0.table = c.table := htb c0 hc0 c hc hid0
+      have hcl := cl_tm_known env st cfg hI.fmt off c.ts c.table hrows.table c.tmOptional hrows.ts hb _ hf
+        (by rw [ht0]; exact ⟨rfl, rfl⟩)
       simp [stepEvent, hcl, stepD] at hs
 
 /-- the ROWS event of a served rows change -/
